@@ -483,6 +483,88 @@ func c12TimedOutAsk(id string, capacity int, seed int64) core.Scenario {
 	}}
 }
 
+// many FRESH mailboxes whose very first submissions race each other (8 senders released by one barrier): anything that
+// is set up lazily on first use is set up once; the functions still run one at a time, exactly once, in sender order
+func c12FirstUseRace(id string, rounds int, seed int64) core.Scenario {
+	return core.Scenario{ID: id, Class: "mailbox.first-use", Run: func(c *core.Ctx) {
+		c.Eval(int64(rounds))
+		c.Distinct(id)
+		for r := 0; r < rounds; r++ {
+			capacity := r % 3
+			useActor := r%2 == 1
+			var inflight, overlaps, ran atomic.Int32
+			body := func() {
+				if inflight.Add(1) > 1 {
+					overlaps.Add(1)
+				}
+				runtime.Gosched()
+				ran.Add(1)
+				inflight.Add(-1)
+			}
+			var submit func()
+			var closeIt func()
+			if useActor {
+				eff := func(self *fpgo.ActorDef[int], m int) { body() }
+				var a *fpgo.ActorDef[int]
+				if capacity == 0 {
+					a = fpgo.ActorNewGenerics(eff)
+				} else {
+					a = fpgo.ActorNewByOptionsGenerics(eff, make(chan int, capacity), map[string]interface{}{})
+				}
+				submit, closeIt = func() { a.Send(1) }, a.Close
+			} else {
+				var h *fpgo.HandlerDef
+				if capacity == 0 {
+					h = fpgo.Handler.New()
+				} else {
+					h = fpgo.Handler.NewByCh(make(chan func(), capacity))
+				}
+				submit, closeIt = func() { h.Post(body) }, h.Close
+			}
+			const senders, each = 8, 3
+			start := make(chan struct{})
+			var wg sync.WaitGroup
+			for s := 0; s < senders; s++ {
+				wg.Add(1)
+				go func() {
+					defer wg.Done()
+					<-start
+					for k := 0; k < each; k++ {
+						submit()
+					}
+				}()
+			}
+			close(start)
+			sent := make(chan struct{})
+			go func() { wg.Wait(); close(sent) }()
+			rep := map[string]any{"scenario": id, "round": r, "actor": useActor, "channel_capacity": capacity}
+			if !c12Await(c, sent, "first-use", rep) {
+				return
+			}
+			deadline := time.Now().Add(20 * time.Second)
+			for ran.Load() < senders*each && time.Now().Before(deadline) {
+				time.Sleep(50 * time.Microsecond)
+			}
+			what := map[bool]string{true: "Actor", false: "Handler"}[useActor]
+			if overlaps.Load() > 0 {
+				c.Violationf(what+":overlap", rep, "fresh %s (capacity %d) whose first submissions came from 8 goroutines at once (round %d): %d functions started while another one was still running", what, capacity, r, overlaps.Load())
+				closeIt()
+				return
+			}
+			if ran.Load() != senders*each {
+				if quiet, _ := core.QuietNow(); quiet {
+					c.Violationf(what+":first-use-lost", rep, "fresh %s (capacity %d), first submissions from 8 goroutines at once: %d of %d submissions ran", what, capacity, ran.Load(), senders*each)
+				} else {
+					c.Inconclusive("first-use round still in progress after 20 s")
+				}
+				closeIt()
+				return
+			}
+			closeIt()
+		}
+	}}
+}
+
 func nextTick() {
 	t := time.Now()
 	for !time.Now().After(t) {
@@ -621,6 +703,12 @@ func c12SpawnScenario(id string, depth, fan int, seed int64) core.Scenario {
 
 func c12Scenarios(c *core.Ctx, race bool) []core.Scenario {
 	var out []core.Scenario
+	for i := 0; i < c.Pick(6, 24); i++ {
+		if race && i >= 2 {
+			break
+		}
+		out = append(out, c12FirstUseRace(fmt.Sprintf("first-use-race-%d-race%v", i, race), c.Pick(1500, 4000), c.Seed+int64(i)))
+	}
 	for i := 0; i < c.Pick(8, 40); i++ {
 		out = append(out, c12TimedOutAsk(fmt.Sprintf("timed-out-ask-cap%d-%d-race%v", i%4, i, race), i%4, c.Seed+int64(i)))
 	}
@@ -667,7 +755,7 @@ func init() {
 		Meta: func(c *core.Ctx) core.Meta {
 			return core.Meta{
 				Level:       "exploration",
-				Rule:        "1..16 concurrent senders x 1..2000 messages (thorough: long runs of 60000) x channel capacity 0..4 (New / NewByCh / NewByOptions) against one Handler and one Actor per scenario; every message carries (sender, seq); the effect is the monitor: normal build = atomic busy counter (must read 1 on entry) + PRNG yields inside the effect, race build = PLAIN counter and PLAIN log append so that the Go race detector (deciding) reports any two effects not ordered by happens-before; after a drain marker the log must hold every message exactly once with each sender's subsequence increasing; self == actor; IsClosed() polled by an observer during the traffic; work submitted after Close returned never runs; Close() called by the running work itself with 0..3 accepted items buffered and 0..3 senders blocked on the full mailbox (Close and the senders must return, accepted items run once in order); an Ask whose asker timed out while it was queued behind a busy actor (capacity 0..3) is still processed exactly once; spawn trees of depth 1..3 x fan 1..3 for GetParent/GetChild, mailbox independence and spawning from a closed parent. distinct_nontrivial = distinct scenarios",
+				Rule:        "1..16 concurrent senders x 1..2000 messages (thorough: long runs of 60000) x channel capacity 0..4 (New / NewByCh / NewByOptions) against one Handler and one Actor per scenario; every message carries (sender, seq); the effect is the monitor: normal build = atomic busy counter (must read 1 on entry) + PRNG yields inside the effect, race build = PLAIN counter and PLAIN log append so that the Go race detector (deciding) reports any two effects not ordered by happens-before; after a drain marker the log must hold every message exactly once with each sender's subsequence increasing; self == actor; IsClosed() polled by an observer during the traffic; work submitted after Close returned never runs; Close() called by the running work itself with 0..3 accepted items buffered and 0..3 senders blocked on the full mailbox (Close and the senders must return, accepted items run once in order); thousands of fresh Handlers / Actors whose very first submissions race each other (8 senders, one barrier: nothing overlaps, nothing is lost); an Ask whose asker timed out while it was queued behind a busy actor (capacity 0..3) is still processed exactly once; spawn trees of depth 1..3 x fan 1..3 for GetParent/GetChild, mailbox independence and spawning from a closed parent. distinct_nontrivial = distinct scenarios",
 				Assumptions: []string{"Close is called after the drain or by the running work itself (closing concurrently with arbitrary senders is property C15)", "actor ids are time stamps; the harness spaces Spawn calls by one clock tick"},
 			}
 		},
